@@ -572,7 +572,8 @@ def _quick_for(rx, props):
 # the prefilter is kind-independent except for en passant: quick keeps en passant (both colours), one
 # pawn kind per colour and the king moves; every-piece and castling forms are thorough
 _thorough(r"^C01/legal/is-legal-prefilter/(Simple|CastlingKingside|CastlingQueenside)/")
-_thorough(r"^C01/legal/is-legal-prefilter/(PawnDouble|PromoteQueen)/w$")
+_thorough(r"^C01/legal/is-legal-prefilter/(PawnDouble/[wb]|PromoteQueen/w)$")
+_thorough(r"^C01/legal/is-legal/(CastlingKingside/b|CastlingQueenside/w)$")   # quick keeps one colour per castling side
 # queen = do_gen_brq with both ray flags; bishop and rook run the same function with one flag each
 _thorough(r"^(C01/gen|C07/gen-exit)/queen/.*/le3$")
 _thorough(r"^C09/into-move/built/(pawn-move/b|pawn-capture/w)$")
